@@ -34,7 +34,8 @@ RULE = ("2-D and 3-D cubes over cat/cat_date/datetime/text/binned/mr rows x colu
         "3-D cases), surveys whose column (and row) missingness depends on the previous variable's answer, "
         "weighted (dyadic, incl. 0) or not, optional subtotal/difference insertions, typedef `order` differing from the "
         "document order of the categories (35% of cat dims), `hide` element transforms on rows (35%) / columns (15%), "
-        "large samples (x1e4..3e6); non-trivial = some base cell "
+        "large samples (x1e4..3e6), weight regimes (all x 2^-40; one row answered only by weight-2^-34 respondents; "
+        "all weights in 2^-6..2^-3 so that totals are < 1) in ~30% of weighted cases; non-trivial = some base cell "
         "has a finite index AND the unconditional row share differs from the share among valid column answers; "
         "distinct = (kinds, missing flags, raw weighted counts)")
 ASSUMPTIONS = ["Spec.cubeOf is the back end's tabulation (cross-checked against the Python tabulator per case)",
@@ -60,6 +61,8 @@ def gen_case(rng):
     weighted = rng.random() < 0.6
     n_resp = rng.choice([0, 1, 3, 8, 15, 25, 40])
     survey = su.gen_survey(rng, vars_, n_resp, weighted)
+    regime = su.pick_regime(rng, weighted, p_each=0.1)
+    survey = su.apply_regime(rng, vars_, survey, regime)
     row_ins = col_ins = []
     if vars_[-2].kind in ("cat", "cat_date") and rng.random() < 0.35:
         row_ins = su.gen_insertions(rng, vars_[-2], rng.randint(1, 2))
@@ -70,7 +73,7 @@ def gen_case(rng):
     col_hide = su.gen_hide(rng, vars_[-1], 0.15)
     return {"vars": [v.to_json() for v in vars_], "survey": gen.survey_to_json(survey), "weighted": weighted,
             "row_ins": row_ins, "col_ins": col_ins, "scale": su.pick_scale(rng, 0.12),
-            "row_hide": row_hide, "col_hide": col_hide}
+            "row_hide": row_hide, "col_hide": col_hide, "wregime": regime}
 
 
 def generate(ctx):
@@ -125,6 +128,8 @@ def evaluate(case, louts, ctx):
         ctx.count("cases_with_hidden_elements")
     if any(v.typedef_perm is not None for v in vars_):
         ctx.count("cases_with_typedef_order")
+    if case.get("wregime"):
+        ctx.count("weight_regime:%s.%s" % (case["wregime"], _locus(vars_, 0, "x").split(".")[-1]))
     nparts = su.n_partitions(vars_)
     parts = common.call_impl(lambda: len(cube.partitions))
     if parts != nparts:
